@@ -11,7 +11,7 @@ import Cellml.Model.Cmeta
 
     A `Variable` object is its identity number (position on `heap`), as in the hand model. -/
 
-namespace Cellml.Tie
+namespace Cellml.Tie.PCmeta
 open Model
 
 -- ------------------------------------------------------------------------------------------------ outcomes
@@ -232,4 +232,4 @@ def rdfRemove (t : Triple) : M Unit := PyM.upd (fun a => { a with rdf := a.rdf.f
     "whatever rdflib yields last"). For a variable without cmeta id there is exactly one admissible answer. -/
 def displayName (v : Nat) : M String := PyM.rd (fun a => (displayNames a v none).getLastD "")
 
-end Cellml.Tie
+end Cellml.Tie.PCmeta
